@@ -68,3 +68,31 @@ def check_case(case):
         if angdiff(f(*mir), -r) > tol:
             out.append((f"torsion-{name}:mirror", f"{name}: mirroring did not negate the value"))
     return out
+
+
+def planar_cases():
+    """exactly coplanar integer / 3-decimal point sets (no rotation applied, so the sine term is exactly 0.0): cis -> 0, trans -> pi"""
+    import itertools
+    out = []
+    base = {"trans": [(0, 1, 0), (0, 0, 0), (1, 0, 0), (1, -1, 0)], "cis": [(0, 1, 0), (0, 0, 0), (1, 0, 0), (1, 1, 0)],
+            "trans-skew": [(-1, 2, 0), (0, 0, 0), (3, 0, 0), (5, -1, 0)], "cis-skew": [(-1, 2, 0), (0, 0, 0), (3, 0, 0), (4, 3, 0)]}
+    for name, pts in base.items():
+        for perm in itertools.permutations(range(3)):
+            for scale in (1.0, 1.5, 0.001):
+                for shift in ((0, 0, 0), (10, -20, 30)):
+                    out.append((name, [tuple(scale * p[perm[k]] + shift[k] for k in range(3)) for p in pts]))
+    return out
+
+
+def check_planar(case):
+    from rnapolis.tertiary import calculate_torsion_angle_coords as t1
+    from rnapolis.tertiary_v2 import calculate_torsion_angle as t2
+    name, pts = case
+    want = math.pi if name.startswith("trans") else 0.0
+    pts = [np.array(p, dtype=float) for p in pts]
+    out = []
+    for tag, f in (("v1", t1), ("v2", lambda *a: float(t2(*a)))):
+        r = f(*pts)
+        if angdiff(r, want) > 1e-6:
+            out.append(f"torsion-{tag}:planar {name}: got {r}, expected {want} for exactly coplanar points {[tuple(p) for p in pts]}")
+    return out
